@@ -12,13 +12,13 @@ from . import prog_common as PC
 from . import bip_common as B
 
 ANCHORS = ['recreate_variables', 'recreate_vars_terms', 'recreate_vars_goals', 'get_rule', 'make_query', 'next_id', 'set_var_id']
-WITNESSES = {'all': ['term', 'goal', 'rule', 'empty-list', 'tail-variable', 'repeated-name', 'get_rule', 'mid-search', 'parsed-rule', 'renamed-twice']}
+WITNESSES = {'all': ['term', 'goal', 'rule', 'empty-list', 'tail-variable', 'repeated-name', 'get_rule', 'mid-search', 'parsed-rule', 'renamed-twice', 'query']}
 OPTS = {'quick': {'selfcheck_mod': 25, 'budget_s': 280}, 'thorough': {'selfcheck_mod': 200, 'budget_s': 3000}}
 STEP_LIMIT = 1_500_000
 BOUNDS = {
     'quick': 'the global id counter is a solver variable n (all 0 <= n < 2^32); recreate_variables on 60 terms (depth <= 2: atoms, numbers, `$_`, named variables with repeated and distinct names, '
              'complex terms, lists incl. [], nested [] and tail variables, function terms), 30 goals (every operator / built-in form) and 40 rules (constructed and parsed from the C19 grammar), once and twice; '
-             'get_rule on a stored clause; checks: equal to the input ignoring ids only (list node chain, counts and tail flags included), one name <-> one id per clause, every new id > n and '
+             'get_rule on a stored clause; make_query and parse_query on 8 queries (a name in two arguments, nested, as a tail; `$_`; none); checks: equal to the input ignoring ids only (list node chain, counts and tail flags included), one name <-> one id per clause, every new id > n and '
              'pairwise distinct (decided by the solver for all n); mid-search: after 0-4 next_solution steps of 6 queries, get_rule must hand out ids that occur nowhere in the live solution nodes',
     'thorough': 'terms to depth 3 and every rule of the C19 grammar',
 }
@@ -33,7 +33,15 @@ TERMS = [A('a'), I(7), ('float', 2.5), ('anon',), XV, C('f', XV), C('f', XV, XV)
 GOALS = [gc('p', XV), gc('s'), gb('!'), gb('fail'), gb('nl'), U(XV, YV), U(XV, F('add', YV, I(1))), gb('print', A('%s'), XV), gb('append', XV, L(YV), ZV), gb('count', L(XV, tail=TV), YV),
          gb('functor', XV, YV, ZV), gb('include', ('anon',), XV, YV), gb('less_than', XV, I(3)), gb('print_list', L(XV, YV)),
          AND(gc('p', XV), gc('q', XV)), OR(gc('p', XV), gc('q', YV)), NOT(gc('p', XV)), AND(gc('p', XV), OR(gc('q', YV), AND(gb('!'), U(XV, YV))), NOT(U(ZV, L()))),
-         ('gtime', (gc('p', XV),)), OR(AND(gc('r', XV, YV), gc('r', YV, ZV)), gc('r', ZV, XV))]
+         ('gtime', (gc('p', XV),)), OR(AND(gc('r', XV, YV), gc('r', YV, ZV)), gc('r', ZV, XV)),
+         # body-local variables that first occur in a different order in each alternative, and again after the disjunction
+         AND(OR(U(ZV, I(1)), AND(U(TV, I(9)), U(ZV, I(2)))), gb('print', ZV, TV)), OR(gc('p', ZV), AND(gc('q', TV), gc('p', ZV)), gc('r', TV, ZV)),
+         AND(NOT(OR(gc('p', ZV), gc('r', TV, ZV))), OR(gc('q', TV), gc('q', ZV)))]
+
+
+# queries: a name in two arguments, in nested positions, as a list tail; anonymous variables; no variable at all
+QUERY_TERMS = [C('edge', XV, XV), C('f', XV, C('g', XV, YV), L(YV, tail=XV)), C('f', XV, YV, XV, YV), C('f', ('anon',), XV, ('anon',), XV), C('f', A('a'), I(1)),
+               C('f', L(XV, YV), L(YV, XV), ZV), C('f', C('g', C('g', XV)), XV), C('go')]
 
 
 def cases(tier, seed):
@@ -51,6 +59,9 @@ def cases(tier, seed):
     step = 2 if tier == 'quick' else 1
     for i, t in enumerate(texts[::step]):
         out.append({'id': 'parsed rule %r' % G.s(t), 'fam': 'parsed', 'text': G.s(t)})
+    for i, qt in enumerate(QUERY_TERMS):
+        out.append({'id': 'query %s' % P.ttext(qt), 'fam': 'query', 'i': i})
+        out.append({'id': 'parsed query %s' % P.ttext(qt), 'fam': 'query', 'i': i, 'text': True})
     qs = [C('t1', XV), C('t3', XV), C('t4', XV), C('t5', XV), C('t6', XV), C('t2', XV), C('t7', XV)]
     for qi in range(len(qs)):
         for k in range(0, 5):
@@ -62,7 +73,8 @@ def var_list(t, acc):
     """all variable occurrences (id, name) in order, for raw pterms / goals / rules"""
     if not isinstance(t, tuple) or not t: return acc
     if t[0] == 'var': acc.append((t[1], t[2])); return acc
-    for x in t[1:]: var_list(x, acc)
+    # a tagged node ('cplx', ...) or a plain sequence of nodes (the goals of an operator, the terms of a complex term)
+    for x in (t[1:] if isinstance(t[0], str) else t): var_list(x, acc)
     return acc
 
 
@@ -150,7 +162,7 @@ def run(drv, case):
     m = drv.m
     fam = case['fam']
     desc = case['id']
-    tags = [fam if fam in ('term', 'goal', 'rule') else {'getrule': 'get_rule', 'parsed': 'parsed-rule', 'mid': 'mid-search'}[fam]]
+    tags = [fam if fam in ('term', 'goal', 'rule', 'query') else {'getrule': 'get_rule', 'parsed': 'parsed-rule', 'mid': 'mid-search'}[fam]]
     try:
         if fam in ('term', 'goal', 'rule', 'parsed'):
             if fam == 'term': src = drv.term(TERMS[case['i']])
@@ -177,6 +189,18 @@ def run(drv, case):
             if ', True)' in text: tags.append('tail-variable')
             names = [nm for _, nm in var_list(before, [])]
             if len(names) != len(set(names)): tags.append('repeated-name')
+        elif fam == 'query':
+            qt = QUERY_TERMS[case['i']]
+            src = drv.term(qt)
+            before = ('gc', drv.dump(src))
+            drv.setid(7)          # make_query starts the numbering again: whatever the counter was
+            if case.get('text'):
+                q, res = drv.parse('query', P.ttext(qt))
+                if res[0] != 'ok': raise Violation('query-rejected', '%s: parse_query rejects it' % desc)
+            else:
+                q = drv.query([drv.term(t) for t in qt[1]])
+            check_renaming(m, before, drv.dump(q), 0, desc, 'query')
+            tags = ['query']
         elif fam == 'getrule':
             h, b = PC.untuple(case['rule'])
             rule = drv.rule(drv.term(h), None if b is None else drv.goal(b))
